@@ -226,6 +226,11 @@ func condTextOK(c *proto.Cond) bool {
 // RenderStmt writes a DDL/DML statement given as direct values as SQL text.
 func RenderStmt(s *proto.Stmt, st Style) string {
 	r := &rend{st: st}
+	renderStmtInto(r, s)
+	return r.String()
+}
+
+func renderStmtInto(r *rend, s *proto.Stmt) {
 	switch s.Kind {
 	case "create":
 		r.kw("CREATE")
@@ -298,12 +303,17 @@ func RenderStmt(s *proto.Stmt, st Style) string {
 			r.cond(s.Where)
 		}
 	}
-	return r.String()
 }
 
 // RenderN writes a neutral-form statement as SQL text.
 func RenderN(n *proto.NStmt, st Style) string {
 	r := &rend{st: st}
+	renderInto(r, n)
+	return r.String()
+}
+
+func renderInto(r *rend, n *proto.NStmt) {
+	st := r.st
 	switch n.Kind {
 	case "select":
 		r.kw("SELECT")
@@ -413,7 +423,7 @@ func RenderN(n *proto.NStmt, st Style) string {
 			off()
 		}
 	case "insert":
-		return RenderStmt(&proto.Stmt{Kind: "insert", Table: n.Name, Cols: n.Cols, Rows: n.Rows}, st)
+		renderStmtInto(r, &proto.Stmt{Kind: "insert", Table: n.Name, Cols: n.Cols, Rows: n.Rows})
 	case "update":
 		r.kw("UPDATE")
 		r.id(n.Name)
@@ -439,7 +449,7 @@ func RenderN(n *proto.NStmt, st Style) string {
 			r.cond(n.Where)
 		}
 	case "create_table":
-		return RenderStmt(&proto.Stmt{Kind: "create", Table: n.Name, Defs: n.Defs}, st)
+		renderStmtInto(r, &proto.Stmt{Kind: "create", Table: n.Name, Defs: n.Defs})
 	case "create_db":
 		r.kw("CREATE")
 		r.kw("DATABASE")
@@ -455,7 +465,19 @@ func RenderN(n *proto.NStmt, st Style) string {
 			r.kw("DATABASE")
 		}
 	}
-	return r.String()
 }
 
 var Plain = Style{}
+
+// RenderNTokens returns the tokens of a statement's plain rendering (a
+// literal or quoted identifier is one token).
+func RenderNTokens(n *proto.NStmt) []string {
+	// render through the same code path, capturing tokens
+	r := &rend{st: Style{OptKw: true}}
+	renderInto(r, n)
+	var out []string
+	for _, t := range r.toks {
+		out = append(out, t.s)
+	}
+	return out
+}
